@@ -23,6 +23,7 @@ NAME_SORT = {
     's': 'S', 'u': 'S',
     'xs': 'A', 'ys': 'A', 'bs': 'AB',
     'm': 'M',
+    '_n': 'N', '_ready': 'B',
 }
 
 
